@@ -58,14 +58,16 @@ Proof. exact ntp32_roundtrip_bits. Qed.
 Print Assumptions C20_ntp32_roundtrip_bits.
 
 (* the unwrapper model IS what the translator tools/go2coq derives from
-   internal/sequencenumber/unwrapper.go on this run (state = (init, lastUnwrapped)) *)
-Theorem C20_unwrapper_model_is_source : forall init last i,
+   internal/sequencenumber/unwrapper.go on this run (state = (init, lastUnwrapped));
+   the uint16 parameters carry their range *)
+Theorem C20_unwrapper_model_is_source : forall init last i, 0 <= i < 65536 ->
   g_sequencenumber_Unwrapper_Unwrap init last i =
     (snd (unwrap (st_of init last) i), true, snd (unwrap (st_of init last) i)) /\
   fst (unwrap (st_of init last) i) = Some (snd (unwrap (st_of init last) i)).
 Proof. exact gen_Unwrap_eq. Qed.
 Print Assumptions C20_unwrapper_model_is_source.
 
-Theorem C20_isNewer_model_is_source : forall v p, g_sequencenumber_isNewer v p = is_newer v p.
+Theorem C20_isNewer_model_is_source : forall v p, 0 <= v < 65536 -> 0 <= p < 65536 ->
+  g_sequencenumber_isNewer v p = is_newer v p.
 Proof. exact gen_isNewer_eq. Qed.
 Print Assumptions C20_isNewer_model_is_source.
